@@ -6,6 +6,11 @@ tier = sys.argv[1] if len(sys.argv) > 1 else 'quick'
 seeds = [int(x) for x in sys.argv[2:]] or [0]
 man = json.load(open(os.path.join(VERIF, 'MANIFEST.json')))
 bad = 0
+# what MANIFEST.setup_cmd does: the whole library must build (name clashes between modules only show here)
+p0 = subprocess.run(man['setup_cmd'], shell=True, cwd=VERIF, capture_output=True, text=True)
+if p0.returncode != 0:
+    print('SETUP FAILED:', (p0.stdout + p0.stderr)[-1500:])
+    bad += 1
 for seed in seeds:
     for c in man['checks']:
         cmd = c['quick_cmd'] if tier == 'quick' else c.get('thorough_cmd', c['quick_cmd'])
